@@ -246,11 +246,13 @@ def run_unit(unit):
         try:
             observe(part, o, lambda w: rows_from_optic(o, w), [0.0, 0.5, -1.0, 1.0], waves, 'sample')
         except ValueError as exc:
-            # catalogue glasses without an extinction table cannot be traced at all at this commit
-            # (MaterialFile.k raises); outside C02's statement, counted and described in DESIGN.md
+            # a bundled sample design that cannot be ray-traced at all (catalogue glass without an extinction table:
+            # MaterialFile.k raises inside the propagation step)
             if 'No extinction coefficient data' not in str(exc):
                 raise
             part.count('sample-untraceable-no-k-table')
+            part.violation(PID, 'bundled-sample-design-traces', 'RealRays.propagate', 'catalogue-medium-without-extinction-data',
+                           dict(sample=unit['name']), observed=str(exc)[:120], expected='the 24 bundled sample designs can be traced')
         part.sample(dict(sample=unit['name']))
     return part
 
